@@ -10,8 +10,11 @@ POINTS = ["convert.before_dict_lock", "convert.before_pref_lock", "convert.befor
           "updater.before_pref_lock", "updater.before_dict_lock", "updater.in_dict_lock", "updater.after_word", "saver.before_pref_lock"]
 
 
-def start(wd, delays=None, trace=None, workers=None, user=True):
+def start(wd, delays=None, trace=None, workers=None, user=True, fresh=True):
     d = os.path.join(wd, "dictionary.dat")
+    if fresh:
+        # every scenario starts without learned data (a periodic save of the previous scenario must not leak into this one)
+        shutil.rmtree(os.path.join(wd, "user"), ignore_errors=True)
     if not os.path.exists(d):
         make_dictionary(wd, STD, ANC, [])
     env = {}
